@@ -18,12 +18,12 @@ def run(tier, deadline):
     envs = {v: dict(os.environ, CAT_LIB=vbuild.build(v)) for v in (("prod",) if tier == "quick" else ("prod", "dist"))}
     N = 4 if tier == "quick" else 6
     jobs = [[loc, str(N), str(i), "8"] for loc in ("C", "C.UTF-8") for i in range(8)]
-    jobs += [[loc, "3" if tier == "quick" else "4", str(i), "4"] for loc in ("C>C.UTF-8", "C.UTF-8>C") for i in range(4)]      # locale histories
+    jobs += [[loc, "3" if tier == "quick" else "4", str(i), "4"] for loc in ("C>C.UTF-8", "C.UTF-8>C", "C+C.UTF-8", "C.UTF-8+C") for i in range(4)]      # locale histories; P+T: thread locale T over process locale P
     jobs += [[loc, "sweep", str(i), "8"] for loc in (("C.UTF-8",) if tier == "quick" else ("C.UTF-8", "C", "C>C.UTF-8")) for i in range(8)]   # every code point
     def mkjobs(tier):
         N = 4 if tier == "quick" else 6
         jobs = [[loc, str(N), str(i), "8"] for loc in ("C", "C.UTF-8") for i in range(8)]
-        jobs += [[loc, "3" if tier == "quick" else "4", str(i), "4"] for loc in ("C>C.UTF-8", "C.UTF-8>C") for i in range(4)]      # locale histories
+        jobs += [[loc, "3" if tier == "quick" else "4", str(i), "4"] for loc in ("C>C.UTF-8", "C.UTF-8>C", "C+C.UTF-8", "C.UTF-8+C") for i in range(4)]      # locale histories; P+T: thread locale T over process locale P
         jobs += [[loc, "sweep", str(i), "8"] for loc in (("C.UTF-8",) if tier == "quick" else ("C.UTF-8", "C", "C>C.UTF-8")) for i in range(8)]   # every code point
         return jobs
     jobs = [("prod", j) for j in jobs] + ([("dist", j) for j in mkjobs("quick")] if tier == "thorough" else [])
@@ -50,7 +50,7 @@ def run(tier, deadline):
     def confirm(v):
         kv = dict(l.split("=", 1) for l in v.replay_text.strip().splitlines()); return replay(kv, quiet=True) == 1
     cov = {"evaluations": tot["calls"], "distinct_nontrivial": max(2, tot["calls"] - tot["faulted_left_to_C01"]),
-           "rule": "every code point 1..0x110100 through wcrtomb_s and wctomb_s (dmax 1,3,5,8) and its encoding back through mbstowcs_s/mbsrtowcs_s; locale histories C>C.UTF-8 and C.UTF-8>C (every converter called once under the first locale, the enumeration run under the second, in one process); multibyte strings of 0..N characters over {a, e-acute, euro sign, U+1F600} plus the invalid units {80, C3 alone, ED A0 80, F5} (at most one invalid unit), wide strings over {a, U+E9, U+20AC, U+1F600, U+D800, U+110000}; dmax and len each below/at/above the converted length; dest NULL (query) or exact-fit in guarded memory; histories on the conversion state: 1..3 bytes of the first character already consumed into the mbstate_t by mbrtowc, mbsrtowcs_s (converting and query form) continuing on the rest, reference = libc continuing from a copy of that state; wide sources of single-byte characters with no terminator, flush against an inaccessible page, len <= their number < dmax (wcstombs_s, wcsrtombs_s); locales C and C.UTF-8; oracle: *retvalp, dest, *srcp equal libc's converter limited to len; terminator; ESNOSPC with dest cleared when the result does not fit; error with dest cleared on an invalid sequence and the same mbstate_t accepted by a following valid conversion; wide->mb->wide identity; non-trivial = calls that did not end in a memory fault (those are C01's)",
+           "rule": "every code point 1..0x110100 through wcrtomb_s and wctomb_s (dmax 1,3,5,8) and its encoding back through mbstowcs_s/mbsrtowcs_s; thread locales (uselocale) C.UTF-8 over process locale C and the reverse; wchar_t values beyond U+10FFFF that glibc still encodes in 4..6 bytes; multibyte sources handed over without terminator in front of an inaccessible page (len ends the conversion); locale histories C>C.UTF-8 and C.UTF-8>C (every converter called once under the first locale, the enumeration run under the second, in one process); multibyte strings of 0..N characters over {a, e-acute, euro sign, U+1F600} plus the invalid units {80, C3 alone, ED A0 80, F5} (at most one invalid unit), wide strings over {a, U+E9, U+20AC, U+1F600, U+D800, U+110000}; dmax and len each below/at/above the converted length; dest NULL (query) or exact-fit in guarded memory; histories on the conversion state: 1..3 bytes of the first character already consumed into the mbstate_t by mbrtowc, mbsrtowcs_s (converting and query form) continuing on the rest, reference = libc continuing from a copy of that state; wide sources of single-byte characters with no terminator, flush against an inaccessible page, len <= their number < dmax (wcstombs_s, wcsrtombs_s); locales C and C.UTF-8; oracle: *retvalp, dest, *srcp equal libc's converter limited to len; terminator; ESNOSPC with dest cleared when the result does not fit; error with dest cleared on an invalid sequence and the same mbstate_t accepted by a following valid conversion; wide->mb->wide identity; non-trivial = calls that did not end in a memory fault (those are C01's)",
            "samples": ["C.UTF-8 mbstowcs_s 61c3a9e282ac dmax=4 len=3", "C.UTF-8 wcsrtombs_s 61.20ac. dmax=2 len=3", "C.UTF-8 mbsrtowcs_s c3a9c3 dmax=2 len=2 (truncated sequence, then reuse of the state)", "C wctomb_s e9. dmax=1", "C.UTF-8 mbsrtowcs_s e282ac61 dmax=3 len=2 split=2 (two bytes of the euro sign pending in the state)", "C.UTF-8 wcsrtombs_s 61.62. dmax=3 len=2 unterminated"],
            "max_characters": N, "calls_ending_in_a_fault_left_to_C01": tot["faulted_left_to_C01"], "jobs_timed_out": len(timed_out), "library_builds": sorted(envs)}
     return common.finish("C15", tier, t0, cov, violations, ["libc's own converters are the reference", "an empty conversion result is not judged (the documented status differs between the converters)"], confirm=confirm, exhaustive=not timed_out)
